@@ -8,8 +8,8 @@ from vplib import harness
 META = {
     "technique": "Coq proof over a labelled transition system of the context runtime (invariant by induction over every schedule) + trace validation of the real ContextRuntime driven poll by poll + real threaded ContextOrchestrator against the real context-free Engine",
     "design_ref": "DESIGN.md §7 C26",
-    "level_text": "Theorems C26_* in coq/theories/Ctx/Props.v: for every program, capacity >= 0 and schedule of the model (blocking forward = the code), what a context consumed from another followed by what waits in its inbox is exactly what was sent, in production order; no deadlock on acyclic context graphs; the try_send design is refuted by a 2-context capacity-1 schedule. The model is tied to context.rs by replaying generated schedules on the real ContextRuntime::run futures (polled by hand) and comparing outputs, inbox lengths and the routing table step by step",
-    "level_note": "Proved: exactly-once in-order delivery for every schedule (model), deadlock freedom on acyclic context graphs, per-context engine output = fold of its consumed events. NOT proved, tested only (oracle: per-stream output sequences equal those of the real Engine without contexts): the second sentence of the property (same multiset / per-stream order as the context-free program). Modelled, not verified: tokio mpsc = bounded FIFO whose send waits for room; thread interleaving = interleaving of the model's atomic steps (recv+process, one forward, one barrier send); engine restricted to stateless where/emit streams; output and ack channels unbounded. The wiring code of ContextOrchestrator::build_with_checkpoint (channel creation, thread spawn) is exercised only through the threaded 'orch' cases; the poll-by-poll cases rebuild it in the harness",
+    "level_text": "Theorems C26_* in coq/theories/Ctx/Props.v: for every program, capacity, number of contexts and schedule of the model (blocking forward = the code), what a context consumed from another followed by what waits in its inbox is exactly what was sent, in production order; no deadlock on acyclic context graphs; the try_send design is refuted by a 2-context capacity-1 schedule. The model is tied to context.rs by replaying generated schedules on the real ContextRuntime::run futures (polled by hand) and comparing outputs, inbox lengths and the routing table step by step",
+    "level_note": "Proved: exactly-once in-order delivery for every schedule (model, blocking forward with tokio's waiter queue), refutation of the try_send design, deadlock freedom on ranked (acyclic) context graphs, macro steps of the harness are schedules of the model. NOT proved, tested only (oracle: per-stream output sequences equal those of the real Engine without contexts): the second sentence of the property (same multiset / per-stream order as the context-free program). Modelled, not verified: tokio mpsc = bounded FIFO whose send waits for room; thread interleaving = interleaving of the model's atomic steps (recv+process, one forward, one barrier send); engine restricted to stateless where/emit streams; output and ack channels unbounded. The wiring code of ContextOrchestrator::build_with_checkpoint (channel creation, thread spawn) is exercised only through the threaded 'orch' cases; the poll-by-poll cases rebuild it in the harness",
 }
 
 CLASS_FANOUT = "type-consumed-in-two-contexts"
@@ -63,6 +63,30 @@ def gen_case(rng, fanout=False):
     return {"prog": prog, "cap": cap, "sched": sched, "kind": "fanout" if fanout else ("burst" if style == 1 else "mix")}
 
 
+def exhaustive_cases(maxlen):
+    """every macro schedule up to maxlen over {input e1, input e2, poll c0, poll c1} on the 2-context pipeline with
+    inbox capacity 1, each followed by polls to quiescence (inputs are taken in order: e2 only after e1)"""
+    prog = WITNESS["prog"]
+    out = []
+    for seq in X.all_sequences(["in", "p0", "p1"], maxlen):
+        sim = X.Sim(prog, 1)
+        sched = []
+        evs = [("E0", 1, 5), ("E0", 2, 5), ("E0", 3, 5)]
+        for a in seq:
+            if a == "in":
+                if not evs:
+                    break
+                st = ("in", evs.pop(0))
+            else:
+                st = ("poll", int(a[1]))
+            sched.append(st)
+            sim.step(st)
+        else:
+            X.finish_rounds(sim, sched)
+            out.append({"prog": prog, "cap": 1, "sched": sched, "kind": "exhaustive"})
+    return out
+
+
 def accepted_inputs(case, ans):
     return [m[1] for m, st in zip(case["sched"], ans["steps"]) if m[0] == "in" and st.get("r") == "ok"]
 
@@ -108,7 +132,7 @@ def check(run):
                 "non-trivial = some event crossed a context boundary and an inbox was full at some step; distinct = distinct (program, capacity, schedule)")
     run.trusted += ["Coq 8.16.1 kernel + vm_compute", "hand-written model coq/theories/Ctx/Model.v (tied by step-by-step trace comparison: outputs, inbox lengths, routing table)",
                     "harness/crates/ctx (rebuilds the per-context wiring of build_with_checkpoint, polls ContextRuntime::run by hand), checks/ctx_common.py (generator, simulator)",
-                    "tokio::sync::mpsc modelled as a bounded FIFO; send().await waits for room"]
+                    "tokio::sync::mpsc modelled as a bounded FIFO whose blocked senders queue FIFO and are handed freed slots (observable through Sender::capacity and try_send)"]
     run.assumptions += ["output channel and engine output channel never full (capacities 2^20 / 1000 in the runs)",
                         "context graphs are acyclic (a cyclic graph with full inboxes can block; C26_no_deadlock_acyclic needs the rank hypothesis)"]
     binpath = X.build(run, "C26.v")
@@ -117,6 +141,7 @@ def check(run):
     rng = run.rng
     nrand = 120 if run.tier == "quick" else 4000
     cases = [WITNESS, SELFROUTE] + [gen_case(rng) for _ in range(nrand)] + [gen_case(rng, fanout=True) for _ in range(nrand // 10)]
+    cases += exhaustive_cases(3 if run.tier == "quick" else 7)
     with X.Phase(run, "implementation runs (poll by poll)"):
         answers = X.run_direct(binpath, cases)
     with X.Phase(run, "model runs (vm_compute)"):
@@ -177,7 +202,7 @@ def check(run):
     for c, r in zip(ocs, orefs):
         expect = sum(len(p) for p in r["out"])
         reqs.append({"mode": "orch", "vpl": X.vpl(c["prog"]), "cap": c["cap"], "events": [list(e) for e in c["events"]],
-                     "expect": expect, "timeout_ms": 15000, "grace_ms": 150})
+                     "expect": expect, "timeout_ms": 45000, "grace_ms": 200})
     with X.Phase(run, "threaded orchestrator runs"):
         oans = harness.run_jsonl(binpath, reqs, timeout=2400)
     for c, r, a in zip(ocs, orefs, oans):
@@ -216,7 +241,7 @@ def replay(run, path):
         c = r["orch_case"]
         ref = X.run_ref(binpath, [(c["prog"], c["events"])])[0]
         a = harness.run_jsonl(binpath, [{"mode": "orch", "vpl": X.vpl(c["prog"]), "cap": c["cap"], "events": [list(e) for e in c["events"]],
-                                         "expect": sum(len(p) for p in ref["out"]), "timeout_ms": 15000, "grace_ms": 150}])[0]
+                                         "expect": sum(len(p) for p in ref["out"]), "timeout_ms": 45000, "grace_ms": 200}])[0]
         got = X.per_stream([tuple(e) for e in a.get("out", [])])
         want = X.per_stream([tuple(e) for per in ref["out"] for e in per])
         if got != want:
